@@ -23,6 +23,7 @@ import (
 	"fmt"
 	"math/rand/v2"
 	"sort"
+	"sync/atomic"
 	"testing"
 	"time"
 
@@ -36,6 +37,8 @@ const (
 	sigBuilderGapBelow = "ack-ranges-not-ascending-gap-below-user-ack"
 	sigE2EGapBelow     = "e2e: AcknowledgementBatches sent not ascending (gap range below a user-acked offset)"
 )
+
+var builderSamples atomic.Int32
 
 type builderCase struct {
 	Entries []kgo.VerifAckEntry `json:"entries"`
@@ -213,7 +216,7 @@ func checkBuilder(r *vh.Run) {
 			sig, detail, gb := judgeBuilder(c)
 			if len(c.Entries) > 0 && len(c.Gaps) > 0 {
 				r.DistinctHash("b", c)
-				if ci == 0 && k < 400 && r.WantSample() && gb {
+				if ci == 0 && k < 400 && gb && builderSamples.Add(1) <= 2 {
 					r.Sample(map[string]any{"builder_entries": c.Entries, "builder_gaps": c.Gaps})
 				}
 			}
@@ -231,6 +234,7 @@ func checkBuilder(r *vh.Run) {
 func TestCheck(t *testing.T) {
 	r := vh.Start(t, "C12")
 	checkBuilder(r)
+	checkParkedAckError(r)
 
 	nRT := r.Pick(24, 600)
 	nVT := r.Pick(40, 1000)
